@@ -154,7 +154,7 @@ def _part_text(partition, numbered, next_tag):
     return "\n".join(lines)
 
 
-def multi_record(recipe, sim_seed, with_codegen=False):
+def multi_record(recipe, sim_seed, with_codegen=False, fixed=False):
     """records (e),(f): per simulated rank the partition in iteration order and
     the tag numbering.  The SimMPI seed is the same in every interpreter."""
     import pytato as pt
@@ -168,7 +168,7 @@ def multi_record(recipe, sim_seed, with_codegen=False):
     def rank_fn(r):
         def fn(comm):
             part = pt.find_distributed_partition(comm, dags[r])
-            npart, next_tag = pt.number_distributed_tags(comm, part, base_tag=77)
+            npart, next_tag = pt.number_distributed_tags(comm, part, base_tag=4242)
             out[r] = _part_text(part, npart, next_tag)
             if with_codegen:
                 from pytato.distributed.execute import generate_code_for_partition
@@ -185,7 +185,12 @@ def multi_record(recipe, sim_seed, with_codegen=False):
             return True
         return fn
     rng = random.Random(f"c17-sim:{sim_seed}")
-    cfg = simmpi.draw_config(rng, n)
+    if fixed:
+        # plain left fold in rank order, lowest rank first: what the
+        # process-actor world of the same recipe is run with
+        cfg = dict(simmpi.DEFAULT_CONFIG)
+    else:
+        cfg = simmpi.draw_config(rng, n)
     sim = simmpi.Sim(n, simmpi.Chooser(rng), cfg)
     sim.run([rank_fn(r) for r in range(n)])
     rec = {}
